@@ -3,11 +3,11 @@ _c20_common = dict(harness="C20_readonly.cpp", entries=["harness_c20"], units=CO
 PROPS["C20"] = dict(
   jobs=[
     dict(name="c20-core", const_coverage=["14TopologyKernel", "15ResourceManager"], **_c20_common,
-         shards={"quick": [{0: B_TET, 1: g, 2: p} for g in range(6) for p in (0, 1)],
-                 "thorough": [{0: b, 1: g, 2: p} for b in (B_TET2_FACE, B_LOWDIM, B_HEX) for g in range(6) for p in (0, 1)]},
+         shards={"quick": [{0: B_TET, 1: g, 2: p, 4: sl} for g in range(6) for p in (0, 1) for sl in (range(4) if 1 <= g <= 4 else [0])],
+                 "thorough": [{0: b, 1: g, 2: p, 4: sl} for b in (B_TET2_FACE, B_LOWDIM, B_HEX) for g in range(6) for p in (0, 1) for sl in (range(4) if 1 <= g <= 4 else [0])]},
          bounds="one tetrahedron (thorough: two tets, low-dimensional mesh, hexahedron), with and without a pending deferred deletion; after the epoch mark each query group runs the const API through a const reference: "
                 "group 0 counts/flags/definitions/handle accessors with SYMBOLIC handles; groups 1-5 lookups, all 26 circulators (construction, ++ over a full lap, --), entity/boundary iterators and ranges with every centre enumerated. "
-                "Every store, memcpy/memset/memmove destination, atomic RMW/cmpxchg and operator delete executed in ANY function is instrumented and asserted not to designate the mesh object or a heap block allocated before the epoch"),
+                "Every store, memcpy/memset/memmove destination, atomic RMW/cmpxchg and operator delete executed in ANY function is instrumented and asserted not to designate the mesh object, a heap block allocated before the epoch, or any writable object with static storage duration (globals, function-local statics)"),
   ],
   assumptions=["sequential reduction (DESIGN.md C20): absence of writes to pre-existing state by every read-only operation implies absence of data races and schedule-independent results for any number of reader threads; "
                "interleavings themselves are not enumerated (CBMC's thread support is out of reach for IR-derived C with heap containers)",
